@@ -272,6 +272,12 @@ def battery(repo: Repo, ctx, rule: str, prefixes: Iterable[str],
                      f'value, which is dropped' for f, s_ in hits[:3]) +
            f' -- {consequence}', hits[0][0].loc if hits else '',
            sample=f'{n} call statements', nontrivial=bool(n))
+    n, hits = unused_locals(repo, prefixes)
+    ctx.ob(rule, 'slips:value-never-used', not hits,
+           '; '.join(f'{f.qualname}: `{v}` is assigned (line {ln}) and '
+                     f'never read' for f, v, ln in hits[:3]) +
+           f' -- {consequence}', hits[0][0].loc if hits else '',
+           sample=f'{n} functions', nontrivial=bool(n))
     n, hits = loop_slips(repo, prefixes)
     ctx.ob(rule, 'slips:loops', not hits,
            '; '.join(f'{f.qualname}:{l.lineno - f.node.lineno}: {why}'
@@ -419,4 +425,45 @@ def discarded_updates(repo: Repo, prefixes: Iterable[str]):
                     n += 1
                     if nm in schema_methods or nm == '_replace':
                         hits.append((f, s))
+    return n, hits
+
+
+# ---------------------------------------------------------------------------
+# values computed and never used
+
+UNUSED_OK = {
+    ('edb.pgsql.compiler.relgen.process_set_as_call', 'key'):
+        'loop variable of an items() iteration; only the value is used',
+}
+
+
+def unused_locals(repo: Repo, prefixes: Iterable[str]):
+    """A local that is assigned and never read (the repository is flake8
+    clean: one audited instance).  A change that stops using a computed
+    value - the dependency, the guard result, the forwarded action - leaves
+    exactly this trace."""
+    import collections
+    n = 0
+    hits = []
+    for m in repo.modules.values():
+        if not m.name.startswith(tuple(prefixes)):
+            continue
+        for f in repo._funcs_of(m):
+            if f.parent is not None:
+                continue
+            n += 1
+            stores = collections.defaultdict(list)
+            loads = set()
+            for x in ast.walk(f.node):
+                if isinstance(x, ast.Name):
+                    if isinstance(x.ctx, ast.Store):
+                        stores[x.id].append(x)
+                    else:
+                        loads.add(x.id)
+                elif isinstance(x, (ast.Global, ast.Nonlocal)):
+                    loads |= set(x.names)
+            for v, ns in stores.items():
+                if v not in loads and not v.startswith('_') and (
+                        f.qualname, v) not in UNUSED_OK:
+                    hits.append((f, v, ns[0].lineno))
     return n, hits
